@@ -185,26 +185,42 @@ theorem pdfDraw_refines (L : Lawful N) (d : Draw ν) (w : PW ν) (hi : PInv N w.
           simpa [refPaint, hj, hs', hn', hf, refStroke] using h
         · rw [b.2]; exact strokeCache_inv d _
     · -- explicit outline
-      by_cases hf : d.hasFill = true
-      · have hfn : d.fill ≠ .none := Paint.has_ne hf
-        have e : pdfDraw N d = PAct.seq ([setFill d.fill, say [.path (.orig d.pid), .paint (fillK d.evenOdd)]] ++
-            [setFill d.stroke, say [.path (.outline d.pid), .paint (fillK false)]]) := by
-          funext w; simp [pdfDraw, hs, hn, hf, fillK]
-        have bf := blockFill d.fill hfn w (.orig d.pid) d.evenOdd
-        have bs := blockFill d.stroke hsn (PAct.seq [setFill d.fill, say [.path (.orig d.pid), .paint (fillK d.evenOdd)]] w).1
-          (.outline d.pid) false
-        have h := PSim.append bf.1 bs.1
-        rw [e]
-        refine ⟨?_, ?_⟩
-        · simpa [refPaint, hs, hn, hf] using h
-        · rw [PAct.seq_append, bs.2, bf.2]; exact hi
-      · have e : pdfDraw N d = PAct.seq [setFill d.stroke, say [.path (.outline d.pid), .paint (fillK false)]] := by
-          funext w; simp [pdfDraw, hs, hn, hf, fillK]
-        have bs := blockFill d.stroke hsn w (.outline d.pid) false
-        rw [e]
-        refine ⟨?_, ?_⟩
-        · simpa [refPaint, hs, hn, hf] using bs.1
-        · rw [bs.2]; exact hi
+      by_cases hoe : d.outlineEmpty = true
+      · -- empty outline: nothing is written for the stroke
+        by_cases hf : d.hasFill = true
+        · have hfn : d.fill ≠ .none := Paint.has_ne hf
+          have e : pdfDraw N d = PAct.seq [setFill d.fill, say [.path (.orig d.pid), .paint (fillK d.evenOdd)]] := by
+            funext w; simp [pdfDraw, hs, hn, hf, hoe]
+          have bf := blockFill d.fill hfn w (.orig d.pid) d.evenOdd
+          rw [e]
+          refine ⟨?_, ?_⟩
+          · simpa [refPaint, hs, hn, hf, hoe] using bf.1
+          · rw [bf.2]; exact hi
+        · have e : pdfDraw N d = PAct.seq [] := by
+            funext w; simp [pdfDraw, hs, hn, hf, hoe]
+          rw [e]
+          refine ⟨?_, hi⟩
+          simp [PSim, PAct.seq, pdfRun, refPaint, hs, hn, hf, hoe]
+      · by_cases hf : d.hasFill = true
+        · have hfn : d.fill ≠ .none := Paint.has_ne hf
+          have e : pdfDraw N d = PAct.seq ([setFill d.fill, say [.path (.orig d.pid), .paint (fillK d.evenOdd)]] ++
+              [setFill d.stroke, say [.path (.outline d.pid), .paint (fillK false)]]) := by
+            funext w; simp [pdfDraw, hs, hn, hf, hoe, fillK]
+          have bf := blockFill d.fill hfn w (.orig d.pid) d.evenOdd
+          have bs := blockFill d.stroke hsn (PAct.seq [setFill d.fill, say [.path (.orig d.pid), .paint (fillK d.evenOdd)]] w).1
+            (.outline d.pid) false
+          have h := PSim.append bf.1 bs.1
+          rw [e]
+          refine ⟨?_, ?_⟩
+          · simpa [refPaint, hs, hn, hf, hoe] using h
+          · rw [PAct.seq_append, bs.2, bf.2]; exact hi
+        · have e : pdfDraw N d = PAct.seq [setFill d.stroke, say [.path (.outline d.pid), .paint (fillK false)]] := by
+            funext w; simp [pdfDraw, hs, hn, hf, hoe, fillK]
+          have bs := blockFill d.stroke hsn w (.outline d.pid) false
+          rw [e]
+          refine ⟨?_, ?_⟩
+          · simpa [refPaint, hs, hn, hf, hoe] using bs.1
+          · rw [bs.2]; exact hi
   · by_cases hf : d.hasFill = true
     · have hfn : d.fill ≠ .none := Paint.has_ne hf
       have e : pdfDraw N d = PAct.seq [setFill d.fill, say [.path (.orig d.pid), .paint (fillK d.evenOdd)]] := by
@@ -277,17 +293,28 @@ theorem pdfDraw_simE (d : Draw ν) (w : PW ν) : PSimE (pdfDraw N d) w := by
           funext w; simp [pdfDraw, hs, hn, hf]
         rw [e]
         exact PSimE.append (hsetup w) (fun w'' => sayPaint_simE _ _ w'')
-    · by_cases hf : d.hasFill = true
-      · have hfn : d.fill ≠ .none := Paint.has_ne hf
-        have e : pdfDraw N d = PAct.seq ([setFill d.fill, say [.path (.orig d.pid), .paint (fillK d.evenOdd)]] ++
-            [setFill d.stroke, say [.path (.outline d.pid), .paint .f]]) := by
-          funext w; simp [pdfDraw, hs, hn, hf]
-        rw [e]
-        exact PSimE.append (fillBlock_simE d.fill hfn _ _ w) (fun w' => fillBlock_simE d.stroke hsn _ _ w')
-      · have e : pdfDraw N d = PAct.seq [setFill d.stroke, say [.path (.outline d.pid), .paint .f]] := by
-          funext w; simp [pdfDraw, hs, hn, hf]
-        rw [e]
-        exact fillBlock_simE d.stroke hsn _ _ w
+    · by_cases hoe : d.outlineEmpty = true
+      · by_cases hf : d.hasFill = true
+        · have hfn : d.fill ≠ .none := Paint.has_ne hf
+          have e : pdfDraw N d = PAct.seq [setFill d.fill, say [.path (.orig d.pid), .paint (fillK d.evenOdd)]] := by
+            funext w; simp [pdfDraw, hs, hn, hf, hoe]
+          rw [e]
+          exact fillBlock_simE d.fill hfn _ _ w
+        · have e : pdfDraw N d = PAct.seq [] := by
+            funext w; simp [pdfDraw, hs, hn, hf, hoe]
+          rw [e]
+          exact PSimE.nil w
+      · by_cases hf : d.hasFill = true
+        · have hfn : d.fill ≠ .none := Paint.has_ne hf
+          have e : pdfDraw N d = PAct.seq ([setFill d.fill, say [.path (.orig d.pid), .paint (fillK d.evenOdd)]] ++
+              [setFill d.stroke, say [.path (.outline d.pid), .paint .f]]) := by
+            funext w; simp [pdfDraw, hs, hn, hf, hoe]
+          rw [e]
+          exact PSimE.append (fillBlock_simE d.fill hfn _ _ w) (fun w' => fillBlock_simE d.stroke hsn _ _ w')
+        · have e : pdfDraw N d = PAct.seq [setFill d.stroke, say [.path (.outline d.pid), .paint .f]] := by
+            funext w; simp [pdfDraw, hs, hn, hf, hoe]
+          rw [e]
+          exact fillBlock_simE d.stroke hsn _ _ w
   · by_cases hf : d.hasFill = true
     · have hfn : d.fill ≠ .none := Paint.has_ne hf
       have e : pdfDraw N d = PAct.seq [setFill d.fill, say [.path (.orig d.pid), .paint (fillK d.evenOdd)]] := by
